@@ -1019,3 +1019,188 @@ class RemovedPart:
 
 
 REMOVED = RemovedPart()
+
+
+# ---------------------------------------------------------------------------------------------------------------------
+# PRINT: Tree.print = print(self.format(<same arguments>), file=file)
+# ---------------------------------------------------------------------------------------------------------------------
+import contextlib as _ctx  # noqa: E402
+
+PR_UNIV = ["s:a", "s: b", "s:\u2502 c", "i:7", "s:e e", "e:1", "t:1,2", "s:`-", "s:"]
+PR_STYLES = [["default"], ["name", "round43"], ["name", "list"], ["name", "ascii11"], ["name", "space2"], ["name", "nope"], ["name", ""],
+             ["custom", ["  ", "| ", "`-", "+-"]], ["custom", ["a", "b"]]]
+PR_TITLES = [None, False, True, "My \u2514 title", ""]
+PR_JOINS = ["\n", ", ", "", "\u2502\n"]
+
+
+def pr_style_arg(st):
+    return None if st[0] == "default" else st[1] if st[0] == "name" else tuple(st[1])
+
+
+def pr_coq_style(st):
+    return "StDefault" if st[0] == "default" else f"(StName {H.coq_text(st[1])})" if st[0] == "name" else f"(StCustom {H.coq_list(H.coq_text(s) for s in st[1])})"
+
+
+def pr_coq_title(t):
+    return "TiDefault" if t is None else "TiFalse" if t is False else "TiTrue" if t is True else f"(TiText {H.coq_text(t)})"
+
+
+class PrintPart:
+    tag = "PRINT"
+    case_module = "CaseMiscPrint"
+    case_vo = "theories/Cases/CaseMiscPrint.vo"
+    run_fn = "run_misc_print"
+    rule = ("Tree.print: plain and typed trees (every forest <= 3 nodes, the empty tree, seeded random trees up to 12 nodes) x 8 calls each "
+            "drawn from 9 style arguments (names, unknown name -> ValueError, custom tuples, malformed tuple) x 5 title settings x 4 join "
+            "strings x file given / sys.stdout, repr default or a format string; stdout is captured; oracle: the text written is "
+            "format(<same arguments>) + newline on the requested stream, nothing on the other one, and an exception of format() is the exception of print() with nothing written")
+
+    def descs(self, tier, rng):
+        def calls(k):
+            return [[rng.choice(PR_STYLES), rng.choice(PR_TITLES), rng.choice(PR_JOINS), rng.random() < 0.5] for _ in range(k)]
+        i = 0
+        for n in range(0, 4):
+            for shape in H.forests(n):
+                for typed in (False, True):
+                    i += 1
+                    nodes = B.shape_to_nodes(shape, lambda k, d, s, i=i: ((k * 5 + i) % len(PR_UNIV), ("k%d" % (k % 2)) if typed else None, f"id{k}"))
+                    yield dict(typed=typed, univ=PR_UNIV, nodes=nodes, name="T%d" % (i % 3), repr=["fmt", "default"][i % 2],
+                               calls=[[["default"], None, "\n", False], [["default"], None, "\n", True]] + calls(6))
+        for j in range(25 if tier == "quick" else 300):
+            n = rng.randint(3, 12)
+            typed = rng.random() < 0.4
+            shape = H.random_shape(rng, n, deep=rng.choice([0.2, 0.5, 0.8]))
+            nodes = B.shape_to_nodes(shape, lambda k, d, s: (rng.randrange(len(PR_UNIV)), ("k%d" % (k % 2)) if typed else None, f"id{k}"))
+            yield dict(typed=typed, univ=PR_UNIV, nodes=nodes, name="T%d" % (j % 3), repr=["fmt", "default"][j % 2], calls=calls(8))
+
+    def shrink_candidates(self, desc):
+        if len(desc["calls"]) > 1:
+            for k in range(len(desc["calls"])):
+                yield dict(desc, calls=[desc["calls"][k]])
+        for nodes in B.drop_one_node(desc["nodes"]):
+            yield dict(desc, nodes=nodes)
+
+    def run(self, desc) -> Case:
+        import io as _io
+        typed = bool(desc.get("typed"))
+        U = B.make_universe(desc["univ"])
+        tree = (TypedTree if typed else Tree)(desc["name"])
+        B.add_nodes(tree._root, desc["nodes"], U, typed)
+        nodes = B.all_nodes(tree._root)
+        if desc["repr"] == "fmt":
+            rarg = "{node.data}"
+            rend = {id(n): f"{n._data}" for n in nodes}
+        else:
+            rarg = None
+            rend = {id(n): (f"{n.kind} \u2192 {n._data}" if typed else f"{n._data!r}") for n in nodes}
+        obs, fails = [], []
+        for st, title, join, fg in desc["calls"]:
+            a = pr_style_arg(st)
+            out, fobj = _io.StringIO(), _io.StringIO()
+            err = None
+            with _ctx.redirect_stdout(out):
+                try:
+                    r = tree.print(repr=rarg, style=a, title=title, join=join, **({"file": fobj} if fg else {}))
+                    if r is not None:
+                        fails.append("print returned a value")
+                except Exception as e:  # noqa: BLE001
+                    err = e
+            written, other = (fobj.getvalue(), out.getvalue()) if fg else (out.getvalue(), fobj.getvalue())
+            # the statement: print(format(same arguments)) on the requested stream
+            try:
+                want, werr = tree.format(repr=rarg, style=a, title=title, join=join), None
+            except Exception as e:  # noqa: BLE001
+                want, werr = None, e
+            if other:
+                fails.append(f"print wrote to the wrong stream (file given: {fg})")
+            if werr is not None:
+                if err is None or type(err) is not type(werr) or written:
+                    fails.append(f"format raises {type(werr).__name__}; print: {type(err).__name__ if err else 'no exception'}, wrote {written!r}")
+            elif err is not None or written != want + "\n":
+                fails.append(f"print(style={a!r}, title={title!r}, join={join!r}) wrote {written!r}, format gives {want!r}")
+            obs.append([-1, H.err_class(err)] if err is not None else [0, 1 if fg else 0, written])
+        rends = H.coq_list(f"({H.nid(n)}, {H.coq_text(rend[id(n)])})" for n in nodes)
+        calls = H.coq_list(f"({pr_coq_style(st)}, {pr_coq_title(t)}, {H.coq_text(j)}, {H.coq_bool(fg)})" for st, t, j, fg in desc["calls"])
+        coq = f"(PC {H.coq_forest(tree._root, U)} {rends} {H.coq_text('TypedTree' if typed else 'Tree')} {H.coq_text(desc['name'])} {calls})"
+        return Case(desc=desc, coq_input=coq, impl_obs=obs, oracle_fail=("print: " + fails[0]) if fails else None,
+                    nontrivial=len(nodes) >= 1, key=H.digest(desc),
+                    stats=dict(nodes=len(nodes), typed=typed, errors=sum(1 for o in obs if o[0] == -1)))
+
+
+PRINT = PrintPart()
+
+
+# ---------------------------------------------------------------------------------------------------------------------
+# MERMAIDDEF: to_mermaid_flowchart called without options (the defaults of the signatures, mermaid.DEFAULT_DIRECTION)
+# ---------------------------------------------------------------------------------------------------------------------
+MD_UNIV = ["s:a", "s:b", "e:1", "e:1", "i:7", "s:c d", "s:a"]
+
+
+class MermaidDefaultsPart:
+    tag = "MERMAIDDEF"
+    case_module = "CaseMiscMermaid"
+    case_vo = "theories/Cases/CaseMiscMermaid.vo"
+    run_fn = "run_misc_mermaid"
+    rule = ("to_mermaid_flowchart(stream) with NO keyword argument, through Tree and through every node (plain and typed trees: every "
+            "forest <= 3 nodes with clones, seeded random trees up to 9 nodes); oracle: identical to the call with every default spelled "
+            "out (direction = mermaid.DEFAULT_DIRECTION) and line 8 is 'flowchart ' + DEFAULT_DIRECTION")
+
+    def descs(self, tier, rng):
+        i = 0
+        for n in range(0, 4):
+            for shape in H.forests(n):
+                for typed in (False, True):
+                    i += 1
+                    nodes = B.shape_to_nodes(shape, lambda k, d, s, i=i: ((k * 3 + i) % len(MD_UNIV), ("k%d" % (k % 2)) if typed else None, None))
+                    yield dict(typed=typed, univ=MD_UNIV, nodes=nodes)
+        for _ in range(15 if tier == "quick" else 200):
+            n = rng.randint(3, 9)
+            typed = rng.random() < 0.4
+            shape = H.random_shape(rng, n, deep=rng.choice([0.2, 0.5, 0.8]))
+            nodes = B.shape_to_nodes(shape, lambda k, d, s: (rng.randrange(len(MD_UNIV)), ("k%d" % (k % 2)) if typed else None, None))
+            yield dict(typed=typed, univ=MD_UNIV, nodes=nodes)
+
+    def shrink_candidates(self, desc):
+        for nodes in B.drop_one_node(desc["nodes"]):
+            yield dict(desc, nodes=nodes)
+
+    def run(self, desc) -> Case:
+        import io as _io
+        import nutree.mermaid as NM
+        typed = bool(desc.get("typed"))
+        U = B.make_universe(desc["univ"])
+        tree = B.new_tree(desc)
+        try:
+            B.add_nodes(tree._root, desc["nodes"], U, typed)
+        except Exception:  # noqa: BLE001   (sibling clash of a generated labelling: keep what was built)
+            pass
+        nodes = B.all_nodes(tree._root)
+        fails, obs = [], []
+        for st in [None] + nodes:
+            buf, buf2 = _io.StringIO(), _io.StringIO()
+            try:
+                if st is None:
+                    tree.to_mermaid_flowchart(buf)
+                    tree.to_mermaid_flowchart(buf2, as_markdown=True, direction=NM.DEFAULT_DIRECTION, title=True, format=None, mmdc_options=None,
+                                              add_root=True, unique_nodes=True, headers=None, node_mapper=None, edge_mapper=None)
+                else:
+                    st.to_mermaid_flowchart(buf)
+                    st.to_mermaid_flowchart(buf2, as_markdown=True, direction=NM.DEFAULT_DIRECTION, title=True, format=None, mmdc_options=None,
+                                            add_self=True, unique_nodes=True, headers=None, node_mapper=None, edge_mapper=None)
+            except Exception as e:  # noqa: BLE001
+                fails.append(f"the default call raised {type(e).__name__}: {e}")
+                obs.append(-1)
+                continue
+            text = buf.getvalue()
+            if text != buf2.getvalue():
+                fails.append("the call without options differs from the call with the documented defaults spelled out")
+            lines = text[:-1].split("\n") if text.endswith("\n") else text.split("\n")
+            if len(lines) < 8 or lines[7] != "flowchart " + NM.DEFAULT_DIRECTION or lines[0] != "```mermaid" or lines[-1] != "```":
+                fails.append(f"default chart: head {lines[:8]!r}")
+            obs.append(lines)
+        coq = f"({H.coq_rt(tree._root, U)}, {H.coq_list(H.z(0 if s is None else H.nid(s)) for s in [None] + nodes)})"
+        return Case(desc=desc, coq_input=coq, impl_obs=obs, oracle_fail=("mermaid defaults: " + fails[0]) if fails else None,
+                    nontrivial=len(nodes) >= 1, key=H.digest(desc), stats=dict(nodes=len(nodes), typed=typed))
+
+
+MERMAIDDEF = MermaidDefaultsPart()
